@@ -592,3 +592,8 @@ where
         Ok(BlockRet::WaitForStream(&self.dst, 1))
     }
 }
+
+#[cfg(rustradio_verif)]
+pub mod verif_access {
+    include!(concat!(env!("RUSTRADIO_VERIF_DIR"), "/access/sigmf.rs"));
+}
